@@ -133,18 +133,25 @@ Definition parse_fixup_line (r : nat) (kv : list N * list N) : fixup :=
   | None => (lstrip DOLLAR (snd kv), [], idx)
   end.
 
+(** var[1:] if var[0] == '$' (EntityFixup.__setitem__ removes one dollar sign) *)
+Definition strip1 (c : N) (s : list N) : list N := match s with x :: r => if x =? c then r else s | [] => [] end.
+Fixpoint nlist_eqb (a b : list N) : bool :=
+  match a, b with [], [] => true | x :: a', y :: b' => (x =? y) && nlist_eqb a' b' | _, _ => false end.
+
 Section FixInit.
   (** casefold equality of variable names (external) *)
   Variable same_var : list N -> list N -> bool.
-  (** EntityFixup.__init__, first loop: a value keeps its index when it is positive and not used yet *)
-  Fixpoint init_keep (used : list N) (l : list fixup) : list fixup * list fixup :=
-    match l with
-    | [] => ([], [])
-    | f :: r =>
-        if (0 <? fx_id f) && negb (VmfText.mem (fx_id f) used)
-        then let '(k, e) := init_keep (fx_id f :: used) r in (f :: k, e)
-        else let '(k, e) := init_keep used r in (k, f :: e)
+  (** EntityFixup.__init__, first loop: a value whose index is positive and not used yet is stored under its
+      casefolded name -- replacing, in place, an earlier value of the same name (whose index stays used); the others
+      are set aside *)
+  Fixpoint put (k : list fixup) (f : fixup) : list fixup :=
+    match k with
+    | [] => [f]
+    | g :: r => if same_var (fx_var g) (fx_var f) then f :: r else g :: put r f
     end.
+  Definition init_step (st : list N * list fixup * list fixup) (f : fixup) : list N * list fixup * list fixup :=
+    let '(used, k, e) := st in
+    if (0 <? fx_id f) && negb (VmfText.mem (fx_id f) used) then (fx_id f :: used, put k f, e) else (used, k, e ++ [f]).
   (** __setitem__: overwrite the value of an existing variable, else insert with the lowest unused index *)
   Fixpoint lowest_unused (fuel : nat) (used : list N) (i : N) : N :=
     match fuel with O => i | S k => if VmfText.mem i used then lowest_unused k used (i + 1) else i end.
@@ -160,8 +167,8 @@ Section FixInit.
     | None => l ++ [(var, val, lowest_unused (S (List.length l)) (map fx_id l) 1)]
     end.
   Definition fix_init (l : list fixup) : list fixup :=
-    let '(k, e) := init_keep [] l in
-    fold_left (fun acc f => set_item acc (lstrip DOLLAR (fx_var f)) (fx_val f)) e k.
+    let '(_, k, e) := fold_left init_step l ([], [], []) in
+    fold_left (fun acc f => set_item acc (strip1 DOLLAR (fx_var f)) (fx_val f)) e k.
 End FixInit.
 
 Definition fixup_ok (f : fixup) : bool :=
@@ -171,3 +178,9 @@ Definition fixup_ok (f : fixup) : bool :=
 Fixpoint nodup_ids (seen : list N) (l : list fixup) : bool :=
   match l with [] => true | f :: r => negb (VmfText.mem (fx_id f) seen) && nodup_ids (fx_id f :: seen) r end.
 Definition fixups_ok (l : list fixup) : bool := forallb fixup_ok l && nodup_ids [] l.
+(** no two variables have the same (casefolded) name *)
+Fixpoint vars_fresh (same_var : list N -> list N -> bool) (k l : list fixup) : bool :=
+  match l with
+  | [] => true
+  | f :: r => forallb (fun g => negb (same_var (fx_var g) (fx_var f))) k && vars_fresh same_var (k ++ [f]) r
+  end.
